@@ -160,7 +160,7 @@ def main():
     import props
     pid = a.property
     P = props.PROPS[pid]
-    use_mpi = bool(P.get('mpi')) or pid in ('C02', 'C04', 'C10', 'C12', 'C19', 'C20')
+    use_mpi = bool(P.get('mpi')) or pid in ('C02', 'C04', 'C10', 'C12', 'C16', 'C19', 'C20')
     sanitizer_viol = []
     st = prepare(mpi=use_mpi)
     broken = []           # stages / obligations that no longer check
@@ -238,7 +238,8 @@ def main():
             env = dict(os.environ); env['ASAN_OPTIONS'] = 'detect_leaks=0'; env['VERIF_TMP'] = os.path.join(BUILD, 'tmp')
             lines = [dump([i, t, cmd, args, []]) for (i, t, cmd, args) in cases]
             outs = tie.run_driver(san, lines, env=env, chunk=40, timeout=3000)
-            crashed = [(c_, o) for c_, o in zip(cases, outs) if o.startswith('(crash')]
+            undefined = set(r['case'][0] for r in results if textcmp.has_ub(r['model'])) if cxx_results is not None else set()
+            crashed = [(c_, o) for c_, o in zip(cases, outs) if o.startswith('(crash') and c_[0] not in undefined]      # (inputs on which the model already reports undefined behaviour are excluded)
             thorough_extra['sanitizer'] = {'cases': len(cases), 'crashed': len(crashed), 'wall_s': round(time.time() - t1, 1)}
             for c_, o in crashed[:3]:
                 sanitizer_viol.append({'what': 'the sanitizer build (ASan + UBSan) aborts on this input: %s' % bytes.fromhex(o.split('"')[1]).decode(errors='replace')[-260:] if '"' in o else o[:200],
